@@ -324,6 +324,7 @@ func init() {
 		Phases: []Phase{
 			{Name: "28 special names, full case-variant battery", Exhaustive: true, N: Fixed(len(c19SpecialNames), len(c19SpecialNames)), Run: c19Specials},
 			{Name: "registration histories with the battery after each step", N: Fixed(200, 20000), Run: c19History},
+			{Name: "a program importing only tabular and tabular/auto: listing complete, every listed style works in every spelling (3 tables, one child process each)", Exhaustive: true, N: Fixed(3, 3), Run: c19MinAuto},
 		},
 	})
 }
